@@ -59,11 +59,11 @@ func (p SkipDecoderTpl[T]) Skip(t TType, maxdepth int) error {
 		if err != nil {
 			return err
 		}
-		sz := int(binary.BigEndian.Uint32(b))
+		sz := int32(binary.BigEndian.Uint32(b))
 		if sz < 0 {
 			return errNegativeSize
 		}
-		if _, err := p.r.SkipN(sz); err != nil {
+		if _, err := p.r.SkipN(int(sz)); err != nil {
 			return err
 		}
 	case STRUCT:
